@@ -303,6 +303,13 @@ class Interp(Engine):
                 return self.spec_stack[-1].result
             if name in self.reg.specfuncs:
                 return SV(KConst, None, const=("specfunc", name))
+        if fr.fi is not None and not self.spec_mode:
+            loc = getattr(fr.fi, "_locals", None)
+            if loc is None:
+                from .execs import assigned_names
+                loc = fr.fi._locals = set(assigned_names(fr.fi.node.body))
+            if name in loc:
+                self.raise_(UnboundLocalError, node)
         mod = fr.module
         if mod is not None and hasattr(mod, name):
             return self.lift_global(getattr(mod, name))
@@ -347,7 +354,8 @@ class Interp(Engine):
                 return self.get_field(st, v, attr, node)
             cls = self.class_by_name(k.cls)
             if cls is None:
-                raise Unsupported("unknown class %s for attribute %s" % (k.cls, attr))
+                # opaque library object (datetime, timedelta, ...): methods come from the library table
+                return SV(KConst, None, const=BoundMethod(v, attr, None))
             try:
                 sa = inspect.getattr_static(cls, attr)
             except AttributeError:
@@ -540,6 +548,8 @@ class Interp(Engine):
                 if isinstance(op, ast.FloorDiv):
                     return SV(KFloat, z3.If(both, f_fin(q), unk))
                 return SV(KFloat, z3.If(both, f_fin(f_r(x) - q * f_r(y)), unk))
+        if isinstance(ka, KRef) and isinstance(kb, KRef) and ka.cls == "datetime" and isinstance(op, ast.Sub):
+            return self.new_object(st, "timedelta")
         if isinstance(ka, KList) and isinstance(kb, KList) and isinstance(op, ast.Add):
             return self.list_concat(st, a, b, node)
         raise Unsupported("binop %s on %s / %s (line %s)" % (type(op).__name__, ka, kb, getattr(node, "lineno", "?")))
